@@ -6,7 +6,9 @@ every layer's memory equal to the sequence of single writes (`writeBatch_transpa
 batches without duplicate registers — the (register, value) pairs reaching a layer are exactly its pairs in request
 order (`writeBatch_order`); missing layer / failing layer errors are passed through.  HOW the layers are called (one
 batch call per layer, first-appearance order) is an implementation note (OPM.Lemmas.CompositeCalls), not a claim:
-the compared view and the oracle contain values, per-layer write order and memory only.
+the compared view and the oracle contain values, per-layer write order and memory only.  Layer faults are driven too
+(stream `faults`): the oracle demands that a call raises iff the individual access to one of its layers would raise and
+that no register ever receives a value that is not its own (theorems `*_failing_layer`, `*_missing_layer`).
 Tie half: the real `Composite_Hardware` over fake layers (register memory + call log) against the model.
 """
 from __future__ import annotations
@@ -57,6 +59,48 @@ def gen_small(ctx: Check) -> list[list[str]]:
     return cases
 
 
+def gen_faults(ctx: Check) -> list[list[str]]:
+    """layer faults at chosen calls. exhaustive part: 3 registers on 2 layers (all assignments) x failing layer x every
+    register sequence of length <= 3: read batch, write batch, single read and write under the fault, then the fault
+    cleared and a read-back.  random part: up to 4 layers, faults switched on/off between ops.  Every (layer, register)
+    cell holds a value of its own (100*layer + 10*register + 1) so that a value from another layer is recognisable."""
+    cases = []
+    for assign in itertools.product(range(2), repeat=3):
+        lay = "layers\t" + _j(f"{r}:{l}" for r, l in enumerate(assign))
+        pokes = [f"poke\t{l}\t{r}\t{100 * l + 10 * r + 1}" for l in range(2) for r in range(3)]
+        for bad_layer in range(2):
+            for k in range(1, 4):
+                for seq in itertools.product(range(3), repeat=k):
+                    cases.append([lay] + pokes + [f"fail\t{bad_layer}\t1", "readb\t" + _j(seq),
+                                                  "writeb\t" + _j(range(1, k + 1)) + "\t" + _j(seq),
+                                                  f"read\t{seq[0]}", f"write\t9\t{seq[-1]}",
+                                                  f"fail\t{bad_layer}\t0", "readb\t0;1;2"])
+    rng = ctx.rng
+    for _ in range(ctx.n(400, 10000)):
+        nl = rng.choice([2, 3, 4, 4])
+        nr = rng.randrange(2, 9)
+        assign = [rng.randrange(nl) for _ in range(nr)]
+        lines = ["layers\t" + _j(f"{r}:{l}" for r, l in enumerate(assign))]
+        lines += [f"poke\t{l}\t{r}\t{100 * l + 10 * r + 1}" for l in range(nl) for r in range(nr)]
+        for _ in range(rng.randrange(3, 10)):
+            if rng.random() < 0.45:
+                lines.append(f"fail\t{rng.randrange(nl)}\t{int(rng.random() < 0.6)}")
+            m = rng.randrange(1, 6)
+            regs = [rng.randrange(nr) for _ in range(m)] if rng.random() < 0.4 else rng.sample(range(nr), min(m, nr))
+            k = rng.random()
+            if k < 0.45:
+                lines.append(rng.choice(["readb\t", "readb\t", "readbg\t"]) + _j(regs))
+            elif k < 0.8:
+                lines.append(rng.choice(["writeb\t", "writeb\t", "writebg\t"])
+                             + _j(rng.randrange(0, 9) for _ in regs) + "\t" + _j(regs))
+            elif k < 0.9:
+                lines.append(f"read\t{rng.randrange(nr)}")
+            else:
+                lines.append(f"write\t{rng.randrange(0, 9)}\t{rng.randrange(nr)}")
+        cases.append(lines)
+    return cases
+
+
 def gen_random(ctx: Check, n: int, malformed: bool) -> list[list[str]]:
     rng = ctx.rng
     cases = []
@@ -98,7 +142,10 @@ def gen_random(ctx: Check, n: int, malformed: bool) -> list[list[str]]:
 # property oracle over the fake layers (independent of the model)
 
 def oracle(lines: list[str]) -> list[Failure]:
-    """For every batch whose registers all have a layer that answers: the batch read returns what the single reads
+    """Faults: a batch (single op) whose registers all have a layer raises iff the individual access to one of these
+    layers would raise, and no register ever gets a value that is not its own (a failing layer's registers are never
+    filled from another layer).
+    For every batch whose registers all have a layer that answers: the batch read returns what the single reads
     of the layers' memories give, in request order; after the batch write every layer's memory equals the memory
     after the single writes in request order, and — no register twice — every layer received exactly its
     (register, value) pairs in request order."""
@@ -133,18 +180,38 @@ def oracle(lines: list[str]) -> list[Failure]:
                 vals = [composite._v(x) for x in composite._lst(f[1])]
                 n = min(len(vals), len(regs))
                 regs, lays, vals = regs[:n], lays[:n], vals[:n]
-            usable = all(l is not None and not impl0.layers[l].failing for l in lays)
-            if usable and f[0] == "readb":
-                want = "vals:" + composite._sl(composite._sv(before[l].get(f"R{r}")) for r, l in zip(regs, lays))
-                got = out.split("\t")[0]
-                if got != want:
-                    if gen_arg and got == "vals:-":
-                        bad("batch-read-of-generator-argument-returns-nothing", i,
-                            f"read_batch(<generator>) returned {got}, single reads give {want}")
-                    else:
-                        bad("batch-read-differs-from-single-reads", i, f"returned {got}, single reads give {want}")
-                if after != before:
-                    bad("batch-read-changed-layer-memory", i, "layer memory changed by a read")
+            assigned = all(l is not None for l in lays)
+            faulty = assigned and any(impl0.layers[l].failing for l in lays)
+            usable = assigned and not faulty
+            raised = out.startswith("raise:")
+            what = "read" if f[0] == "readb" else "write"
+            if faulty and not raised:
+                extra = ""
+                if f[0] == "readb":
+                    got_vals = out.split("\t")[0][5:].split(",") if out.split("\t")[0] != "vals:-" else []
+                    foreign = [(r, g) for r, l, g in zip(regs, lays, got_vals)
+                               if impl0.layers[l].failing and g != composite._sv(before[l].get(f"R{r}"))]
+                    extra = (f"; registers of the failing layer were filled with values that are not theirs: {foreign}"
+                             if foreign else "")
+                bad(f"batch-{what}-returns-normally-although-a-layer-raises", i,
+                    f"layers {sorted({l for l in lays if impl0.layers[l].failing})} raise HardwareLayerException on every "
+                    f"access, the composite returned {out.split(chr(9))[0]}{extra}")
+            if usable and raised:
+                bad(f"batch-{what}-raises-although-every-layer-answers", i, f"result {out.split(chr(9))[0]}")
+            if faulty and f[0] == "writeb":
+                # no register gets a value that is not its own: failing layers keep their memory, the others hold the
+                # old value or the value commanded for that very register
+                last = {}
+                for r, v in zip(regs, vals):
+                    last[r] = v
+                for li, (mb, ma) in enumerate(zip(before, after)):
+                    for name in set(mb) | set(ma):
+                        r = int(name[1:])
+                        ok_vals = [mb.get(name)] + ([last[r]] if r in last and layer_of(impl0, r) == li
+                                                    and not impl0.layers[li].failing else [])
+                        if ma.get(name) not in ok_vals:
+                            bad("faulted-batch-write-put-foreign-value", i,
+                                f"layer {li} register {r}: {mb.get(name)!r} -> {ma.get(name)!r}, commanded {last.get(r)!r}")
             if usable and f[0] == "writeb":
                 exp = [dict(m) for m in before]
                 for r, l, v in zip(regs, lays, vals):
@@ -157,6 +224,24 @@ def oracle(lines: list[str]) -> list[Failure]:
                         got_seq = [(r, v) for (cl, rs, vs) in impl0.calls if cl == l for r, v in zip(rs, vs)]
                         if got_seq != want_seq:
                             bad("batch-write-order-differs-on-layer", i, f"layer {l} received {got_seq}, single writes {want_seq}")
+        if f[0] in ("read", "write"):
+            r = int(f[-1])
+            l = layer_of(impl0, r)
+            if l is not None:
+                raised = out.startswith("raise:")
+                if impl0.layers[l].failing and not raised:
+                    bad(f"single-{f[0]}-returns-normally-although-its-layer-raises", i, f"result {out.split(chr(9))[0]}")
+                if not impl0.layers[l].failing:
+                    if raised:
+                        bad(f"single-{f[0]}-raises-although-its-layer-answers", i, f"result {out.split(chr(9))[0]}")
+                    elif f[0] == "read" and out.split("\t")[0] != "vals:" + composite._sv(before[l].get(f"R{r}")):
+                        bad("single-read-not-from-own-layer", i,
+                            f"returned {out.split(chr(9))[0]}, layer {l} holds {before[l].get(f'R{r}')!r}")
+                    elif f[0] == "write":
+                        exp = [dict(m) for m in before]
+                        exp[l][f"R{r}"] = composite._v(f[1])
+                        if after != exp:
+                            bad("single-write-not-on-own-layer", i, f"memory {after}, expected {exp}")
         before = after
     return fails
 
@@ -169,12 +254,16 @@ def run(ctx: Check) -> int:
     small = gen_small(ctx)
     rnd = gen_random(ctx, ctx.n(1000, 50000), malformed=False)
     mal = gen_random(ctx, ctx.n(300, 10000), malformed=True)
+    flt = gen_faults(ctx)
     ctx.rule = ("op lines for Composite_Hardware over fake layers. small: every assignment of 3 registers to 2 layers x "
                 f"every register sequence of length <= {ctx.n(3, 4)} as a read batch, a write batch and a read-back. random: "
                 "1-4 layers, 1-8 registers, 3-13 ops (poke, read, write, read_batch, write_batch) with batches of 0-6 "
                 "registers, half of them drawn with replacement (duplicates within and across batches), values None / "
                 "-3..11. malformed: registers without a layer, unequal value/register list lengths, failing layers, "
-                "empty batches; a fifth of the batches is passed as generators instead of lists. Compared per op: result, "
+                "empty batches. faults: a layer raises HardwareLayerException on every access while switched on — exhaustive for 3 "
+                "registers / 2 layers / failing layer / sequences <= 3 (read batch, write batch, single read, single write "
+                "under the fault, read-back after it), random on up to 4 layers with faults toggled between ops; every "
+                "(layer, register) cell holds its own recognisable value; a fifth of the batches is passed as generators instead of lists. Compared per op: result, "
                 "per-layer sequence of delivered (register, value) pairs (not for batches naming a register twice), "
                 "per-layer memory — not the read calls. Non-trivial = some batch touches two or more layers.")
 
@@ -195,7 +284,7 @@ def run(ctx: Check) -> int:
     def nontrivial(c, out):
         return any(n >= 2 for _, n in layers_touched(c))
 
-    for name, cases in (("corpus", corpus), ("small", small), ("random", rnd), ("malformed", mal)):
+    for name, cases in (("corpus", corpus), ("small", small), ("random", rnd), ("malformed", mal), ("faults", flt)):
         if not cases:
             continue
         out, mout = ctx.correspond(name, "Composite", cases, lambda c: c, composite.run_impl, nontrivial=nontrivial)
@@ -212,7 +301,7 @@ def run(ctx: Check) -> int:
                 if a not in ("ok", "bad-op"):
                     ctx.count("result:" + a.split("\t")[0].split(":")[0] + (":" + a.split("\t")[0].split(":")[1]
                               if a.startswith("raise") else ""))
-    orc = corpus + small + rnd + mal
+    orc = corpus + small + rnd + mal + flt
     ctx.monitor(orc, lambda c: oracle(c) or None)
     ctx.extra["oracle_cases"] = len(orc)
     ctx.exhaustive = True
